@@ -10,6 +10,8 @@ func init() {
 	replayers["C17"] = replayC17
 	replayers["C10"] = replayC10
 	replayers["C20"] = replayC20
+	replayers["C08"] = replayClean
+	replayers["C01"] = replayClean
 }
 
 // ---------------------------------------------------------------------------
@@ -413,6 +415,116 @@ func TestVerifReplayC20(t *testing.T) {
 	}
 	if len(out) > 3000 {
 		out = out[:3000] + "\n...(truncated)\n"
+	}
+	return !passed && strings.Contains(out, "REPRODUCED"), out
+}
+
+// ---------------------------------------------------------------------------
+// C01 / C08 (clean side): the obligations quantify over the content S, its
+// chunking by Read, and the size reported for the path.  The replay runs the
+// real copyToTemp on the input classes the model distinguishes (pointer /
+// look-alike / content; below / at / above 1024 bytes; one chunk / small
+// chunks / pointer-sized first chunk; file size smaller / equal / larger).
+
+func replayClean(w *World, ob *Obligation, vc *VC) (bool, string) {
+	if !(strings.Contains(ob.Func, "copyToTemp") || strings.Contains(ob.Func, "DecodeFrom")) {
+		return false, "no replay template for this function\n"
+	}
+	test := `package lfs
+
+import (
+	"bytes"
+	"crypto/sha256"
+	"encoding/hex"
+	"io"
+	"os"
+	"strings"
+	"testing"
+
+	"github.com/git-lfs/git-lfs/v3/config"
+	"github.com/git-lfs/git-lfs/v3/errors"
+)
+
+type verifChunkReader struct {
+	data   []byte
+	chunks []int
+	i      int
+}
+
+func (r *verifChunkReader) Read(p []byte) (int, error) {
+	if len(r.data) == 0 {
+		return 0, io.EOF
+	}
+	n := len(p)
+	if r.i < len(r.chunks) && r.chunks[r.i] < n {
+		n = r.chunks[r.i]
+	}
+	r.i++
+	if n > len(r.data) {
+		n = len(r.data)
+	}
+	copy(p, r.data[:n])
+	r.data = r.data[n:]
+	return n, nil
+}
+
+func TestVerifReplayClean(t *testing.T) {
+	dir := t.TempDir()
+	cfg := config.NewIn(dir, dir)
+	f := NewGitFilter(cfg)
+	ptr := "version https://git-lfs.github.com/spec/v1\noid sha256:4d7a214614ab2935c943f9e0ff69d22eadbb8f32b1258daaa5e2ca24d17e2393\nsize 12345\n"
+	inputs := map[string]string{
+		"pointer":               ptr,
+		"pointer+tail<1024":     ptr + "and then some more data that is not part of any pointer\n",
+		"pointer+padding>=1024": ptr + strings.Repeat(" ", 1024) + "real content after the padding\n",
+		"content 4800 bytes":    strings.Repeat("0123456789abcdef", 300),
+		"content 1024 bytes":    strings.Repeat("x", 1024),
+		"short content":         "hello world\n",
+	}
+	chunkings := map[string][]int{"one chunk": nil, "1-byte chunks": {1, 1, 1, 1, 1, 1, 1, 1, 1, 1, 1, 1, 1, 1, 1, 1, 1, 1, 1, 1}, "pointer-sized first chunk": {len(ptr)}, "half pointer first": {len(ptr) / 2}}
+	for iname, in := range inputs {
+		for cname, ch := range chunkings {
+			for _, fileSize := range []int64{-1, 100, int64(len(in)), 1 << 20} {
+				rd := &verifChunkReader{data: []byte(in), chunks: ch}
+				oid, size, tmp, err := f.copyToTemp(rd, fileSize, nil)
+				isPtr := false
+				if len(in) < 1024 {
+					_, derr := DecodePointer(strings.NewReader(in))
+					isPtr = derr == nil
+				}
+				if errors.IsCleanPointerError(err) {
+					by, _ := errors.GetContext(err, "bytes").([]byte)
+					if !isPtr {
+						t.Errorf("REPRODUCED: %s / %s / fileSize=%d: content that is not a pointer (%d bytes) was treated as a pointer", iname, cname, fileSize, len(in))
+					} else if !bytes.Equal(by, []byte(in)) {
+						t.Errorf("REPRODUCED: %s / %s / fileSize=%d: pointer written back as %d bytes instead of %d", iname, cname, fileSize, len(by), len(in))
+					}
+					continue
+				}
+				if err != nil {
+					t.Errorf("unexpected error: %v", err)
+					continue
+				}
+				if isPtr {
+					t.Errorf("REPRODUCED: %s / %s / fileSize=%d: a well-formed pointer was stored as an object (pointer to a pointer)", iname, cname, fileSize)
+				}
+				stored, _ := os.ReadFile(tmp.Name())
+				os.Remove(tmp.Name())
+				sum := sha256.Sum256([]byte(in))
+				if !bytes.Equal(stored, []byte(in)) || oid != hex.EncodeToString(sum[:]) || size != int64(len(in)) {
+					t.Errorf("REPRODUCED: %s / %s / fileSize=%d: stored %d of %d bytes; oid/size name %s/%d", iname, cname, fileSize, len(stored), len(in), oid[:8], size)
+				}
+			}
+		}
+	}
+}
+`
+	out, passed, err := runOverlayTest(w.repoDir, "lfs", "zz_verif_replay_test.go", test, "TestVerifReplayClean")
+	if err != nil {
+		return false, "replay could not run: " + err.Error() + "\n"
+	}
+	if len(out) > 4000 {
+		out = out[:4000] + "\n...(truncated)\n"
 	}
 	return !passed && strings.Contains(out, "REPRODUCED"), out
 }
